@@ -17,7 +17,7 @@ LEVEL = 'proof'
 PROPS_MODULES = ['RTV.Props.C20']
 GEN = ['chartables', 'regexes', 'emojitable']
 REQUIRED_THEOREMS = ['alts_polarity', 'alts_listed', 'neutral_nothing', 'both_polarities_one_entity',
-                     'reported_score_unit_interval', 'match_value_can_exceed_one', 'rewrite_true_regex',
+                     'reported_score_unit_interval', 'matchValue_can_exceed_one', 'rewrite_true_regex',
                      'prefix_rewrite_loses_thumbs_up', 'prefix_first_occurrence_span']
 RULE = ('alternatives enumerated from EnglishChoice.TrueRegex/FalseRegex of the working tree (`\\s+` as 1 and 3 blanks; '
         'surrogate pairs / \\u0001Fxxx escapes as the single code point they denote) x {lower, UPPER, Title} x 12 contexts '
@@ -329,7 +329,7 @@ def correspond(ctx):
         if not ok:
             ctx.report('correspondence', 'unit-match_value', '%s: implementation %r, model %s' % (l, a, b),
                        failing_input={'op': l, 'implementation': a, 'model': b})
-    # the helper can leave [0,1] (negative theorem match_value_can_exceed_one): replayed, recorded, not a finding —
+    # the helper can leave [0,1] (negative theorem matchValue_can_exceed_one): replayed, recorded, not a finding —
     # the reported score is the parser's default 0.0
     ctx.extra['match_value_witness'] = {'args': [['a'], ['x', 'x', 'x'], 0],
                                         'implementation': impl.extractor.match_value(['a'], ['x', 'x', 'x'], 0)}
